@@ -310,8 +310,8 @@ def plan(tier):
     parts = 6 if tier == 'quick' else 16
     specs = [{'kind': 'chains', 'maxlen': maxlen, 'part': i, 'parts': parts} for i in range(parts)]
     k = 5 if tier == 'quick' else 16
-    specs += [{'kind': 'trees', 'n': 2500 if tier == 'quick' else 60000, 'k': i} for i in range(k)]
-    specs += [{'kind': 'tokens', 'n': 3000 if tier == 'quick' else 60000, 'k': i} for i in range(k)]
+    specs += [{'kind': 'trees', 'n': 6000 if tier == 'quick' else 60000, 'k': i} for i in range(k)]
+    specs += [{'kind': 'tokens', 'n': 8000 if tier == 'quick' else 60000, 'k': i} for i in range(k)]
     return specs
 
 
